@@ -22,6 +22,10 @@ pub struct Ctl {
     pub fail_len: usize,
     /// opening (read-only) a path containing this string fails with PermissionDenied; empty = off
     pub fail_open: String,
+    /// number of upcoming positional reads (`read_from`) on read-only handles of paths containing `fail_read_path` that fail
+    pub fail_reads: usize,
+    pub fail_read_path: String,
+    pub reads: usize,
 }
 
 #[derive(Clone)]
@@ -48,6 +52,16 @@ impl FaultFs {
     }
     pub fn fail_open(&self, path_contains: &str) {
         self.ctl.lock().unwrap().fail_open = path_contains.to_string();
+    }
+    /// the next `n` positional reads of files whose path contains `path_contains` fail (transient read fault)
+    pub fn fail_next_reads(&self, path_contains: &str, n: usize) {
+        let mut c = self.ctl.lock().unwrap();
+        c.fail_read_path = path_contains.to_string();
+        c.fail_reads = n;
+    }
+    /// number of positional reads served or failed so far
+    pub fn reads(&self) -> usize {
+        self.ctl.lock().unwrap().reads
     }
     pub fn fail_next_len(&self, n: usize) {
         self.ctl.lock().unwrap().fail_len = n;
@@ -136,6 +150,39 @@ impl RandomAccessFile for FFile {
     }
 }
 
+struct RFile {
+    inner: Box<dyn ReadonlyRandomAccessFile>,
+    path: PathBuf,
+    ctl: Arc<Mutex<Ctl>>,
+}
+impl Read for RFile {
+    fn read(&mut self, buf: &mut [u8]) -> Result<usize> {
+        self.inner.read(buf)
+    }
+}
+impl Seek for RFile {
+    fn seek(&mut self, pos: SeekFrom) -> Result<u64> {
+        self.inner.seek(pos)
+    }
+}
+impl ReadonlyRandomAccessFile for RFile {
+    fn read_from(&self, buf: &mut [u8], offset: usize) -> Result<usize> {
+        {
+            let mut c = self.ctl.lock().unwrap();
+            c.reads += 1;
+            if c.fail_reads > 0 && self.path.to_string_lossy().contains(&c.fail_read_path) {
+                c.fail_reads -= 1;
+                c.failures += 1;
+                return Err(Error::new(ErrorKind::Other, "injected fault (read)"));
+            }
+        }
+        self.inner.read_from(buf, offset)
+    }
+    fn len(&self) -> Result<u64> {
+        self.inner.len()
+    }
+}
+
 impl FileSystem for FaultFs {
     fn get_name(&self) -> String {
         "FaultFs".to_string()
@@ -157,7 +204,8 @@ impl FileSystem for FaultFs {
                 return Err(Error::new(ErrorKind::PermissionDenied, "injected fault (open)"));
             }
         }
-        self.inner.open_file(path)
+        let f = self.inner.open_file(path)?;
+        Ok(Box::new(RFile { inner: f, path: path.to_path_buf(), ctl: Arc::clone(&self.ctl) }))
     }
     fn rename(&self, from: &Path, to: &Path) -> Result<()> {
         gate(&self.ctl, "rename", to)?;
